@@ -283,7 +283,7 @@ func (c c05) Execute(p *core.Plan) *core.Result {
 					o.Err = fmt.Errorf("batch request decode failed")
 					return
 				}
-				// the issuer must answer: a call that does not return within 20 s is a hang
+				// the issuer must answer: a call that does not return within 10 s is a hang (honest batches take milliseconds)
 				done := make(chan struct{})
 				go func() {
 					defer func() {
@@ -296,12 +296,12 @@ func (c c05) Execute(p *core.Plan) *core.Result {
 				}()
 				select {
 				case <-done:
-				case <-time.After(20 * time.Second):
+				case <-time.After(10 * time.Second):
 					hung = true
 				}
 			})
 			if hung {
-				res.Violate("C05/issuer-hang", fmt.Sprintf("EvaluateBatch did not return within 20 s for a batch of %d requests", len(slots)), -1)
+				res.Violate("C05/issuer-hang", fmt.Sprintf("EvaluateBatch did not return within 10 s for a batch of %d requests", len(slots)), -1)
 				core.ExitAfterThisPlan = true
 				return
 			}
